@@ -17,14 +17,24 @@ package dtls
 // Write hands data to the record layer only after the handshake has completed successfully.
 //@ func Conn.Write
 //@ watch Conn.Handshake Conn.writeApplicationData Conn.newApplicationDataPacket
-//@ requires args: wfConn(c)
+//@ requires args: wfConn(c) && c.writeDeadline != nil
 //@ ensures handshake-first: called("Conn.writeApplicationData") ==> called("Conn.Handshake") && retErr("Conn.Handshake", 0) == nil && calledBefore("Conn.Handshake", "Conn.writeApplicationData")
 //@ ensures packet-from-constructor: called("Conn.writeApplicationData") ==> called("Conn.newApplicationDataPacket")
 //@ ensures one-record-per-write: ncalls("Conn.writeApplicationData") <= 1
 //@ end
 
+// contextWithClose starts a goroutine that only reads the Conn and cancels the returned context (assumption).
+//@ func Conn.contextWithClose
+//@ trusted
+//@ ensures wf-kept: old(wfConn(c)) ==> wfConn(c)
+//@ ensures results: !isNil(result0) && result1 != nil
+//@ end
+
+// Handshake (goroutines, FSM) is not verified here; that it keeps the Conn well-formed is a listed assumption.
 //@ func Conn.Handshake
-//@ noinline
+//@ trusted
+//@ requires wf: wfConn(c)
+//@ ensures wf-kept: wfConn(c)
 //@ end
 
 //@ func Conn.writeApplicationData
